@@ -71,6 +71,34 @@ def generate(rng, tier):
                     ln = s.add("unwind U C %s %s %s S" % (ak, hx(e), regs), tag="%s:%s:%s:%s" % (arch, pres, kind, ak))
                     s.meta[ln] = {"sp": sp, "delta": gran * k, "arch": arch}
             out.append(("adjacent-%s-%d" % (arch, rep), s))
+    # PE x64: adjacent functions with different allocations; the boundary as a return address belongs to the function
+    # before it (its last instruction is the call), as an instruction pointer to the function after it (first prolog byte)
+    for rep in range(2 if tier == "quick" else 20):
+        s = Script("x86")
+        base_stack = 0x7000
+        s.mem("S", [(base_stack + 8 * i, 0x50000 + i) for i in range(64)])
+        s.add("new U"); s.add("newcache C")
+        pbase = 0x7ff600000000 + 0x10000 * rng.below(256)
+        l0, l1, l2 = rng.choice([8, 0x10, 0x30]), rng.choice([8, 0x20]), rng.choice([8, 0x10])
+        gap = rng.choice([1, 0x10])
+        b0 = 0x1000; b1 = b0 + l0; b2 = b1 + l1 + gap; e2 = b2 + l2
+        ks = [4, 6, 8]
+        uinfos = {i: dict(fpreg=None, fpoff=0, ops=[(4, ("alloc", 8 * k))], chain=None, prolog=4) for i, k in enumerate(ks)}
+        # the image ends with its last function
+        module_pe(s, "MP", pbase, pbase + e2, pbase, 0x140000000, [(b0, b1, 0), (b1, b1 + l1, 1), (b2, e2, 2)], uinfos,
+                  0x1000, bytes([0x90]) * (e2 - 0x1000))
+        s.add("add U MP")
+        pp = [("same", "ra", b1, 8 * ks[0] + 8), ("same", "ip", b1, 8),
+              ("gap", "ra", b1 + l1, 8 * ks[1] + 8), ("gap", "ip", b1 + l1, 8),
+              ("last", "ra", e2, 8 * ks[2] + 8),
+              ("inside", "ra", b1 + 5, 8 * ks[1] + 8), ("inside", "ip", b1 + 4, 8 * ks[1] + 8)]
+        for kind, ak, rva, delta in pp:
+            for _ in range(2):
+                sp = base_stack + 8 * rng.range(0, 8)
+                regs = s.regs_x86(pbase + rva, sp, 0x7100)
+                ln = s.add("unwind U C %s %s %s S" % (ak, hx(pbase + rva), regs), tag="x86:pe:%s:%s" % (kind, ak))
+                s.meta[ln] = {"sp": sp, "delta": delta, "arch": "x86"}
+        out.append(("adjacent-pe-%d" % rep, s))
     # Mach-O: functions whose last instruction is a call (compact unwind entries and, for DWARF-deferred entries, the FDE
     # rows are both looked up at the return address minus one); the return address is the start of the next function
     import machotruth as mt
